@@ -31,12 +31,15 @@ def const_view_witnesses():
 
 def run(tier, runner):
     pts = matrix.flatset_points(tier)
-    progs = matrix.programs(runner, pts)
+    progs = matrix.programs(runner, pts) + matrix.real_programs(runner, tier)
     r_cmp = sets.cmp_obj(progs, (sets.FS,))
     r_node = sets.node([p for p in progs])
     r_node.findings = [f for f in r_node.findings if 'FlatSet' in f.key]
     r_stable, r_inv = sets.sort_rules(progs)
     r_search = sets.search(progs)
+    r_mo = sets.merge_order(progs)
+    r_mo.findings = [f for f in r_mo.findings if 'FlatSet' in f.key]
+    r_mo.require(2, 'merge cursors')
     w = const_view_witnesses()
     r_w = witness.run_witnesses(runner, w, [(17, True, False)] if tier == 'quick' else [(11, True, False), (14, True, False), (17, True, False), (20, True, False)],
                                 ['clang++'] if tier == 'quick' else ['clang++', 'g++'],
@@ -47,13 +50,13 @@ def run(tier, runner):
     r_inv.require(4, 'bulk writers')
     r_search.require(10, 'lookup members')
     return {
-        'results': [r_cmp, r_inv, r_stable, r_node, r_search] + r_w,
+        'results': [r_cmp, r_inv, r_stable, r_node, r_search, r_mo] + r_w,
         'explanation': 'C03 as stated (same elements / results as std::set over histories) is not decided.  Decided structural clauses: CMP-OBJ - every '
                        'ordering or equivalence decision uses the stored comparator object (no default-constructed temporary); SORT-INV - every bulk '
                        'writer fed with caller data re-establishes sorted+unique (stable sort, merge when appending, duplicate removal) before returning; '
                        'STABLE - the first inserted of equivalent elements survives; NODE - insert(node) empties the node only if the insertion happened; '
                        'CONST-VIEW - no API hands out mutable access to the sorted storage; SEARCH - every lookup is one binary search relying on the '
-                       'invariant; SIG - result types as std::set.',
+                       'invariant; SIG - result types as std::set; MERGE-ORDER - both merge overloads traverse the source from its beginning forwards (first equivalent element wins).',
         'assumptions': ['the correctness of the two merge loops and of the insert_hint decision tree is value-dependent and not decided (C12)',
                         'std::stable_sort / inplace_merge / unique / lower_bound behave as specified'],
         'trusted': ['libstdc++ 12 algorithms', 'the amcsa plugin export', 'compile-time evaluation by clang/g++'],
